@@ -123,6 +123,11 @@ def _realpath_arm(prog, chk):
         pd = fp.defs(unparse(c.args[0]), n)
         ok = len(pd) == 1 and unparse(pd[0][1]) == "msg.get_text()"
         rv = unparse(n.ast.targets[0]) if isinstance(n.ast, ast.Assign) else None
-        rs = [k for (x, k) in fp.nodes_with_call(name="self._response")]
+        rsn = [(x, k) for (x, k) in fp.nodes_with_call(name="self._response")]
+        rs = [k for (x, k) in rsn]
         ok = ok and rv is not None and len(rs) == 1 and [unparse(a) for a in rs[0].args][:4] == ["request_number", "CMD_NAME", "1", rv]
+        if ok:
+            # ... and on every path what is answered *is* canonicalize's result: no other definition of it reaches the reply
+            ds = fp.defs(rv, rsn[0][0])
+            ok = len(ds) == 1 and ds[0][1] is c
     chk.ob("R2.realpath-uses-canonicalize", "_process:REALPATH", ok, pr.loc, "REALPATH -> canonicalize(client path) -> NAME reply with its result")
